@@ -421,6 +421,7 @@ static Verdict run_C06(const Scn &s) {
   memcpy(key, B.e.key, 16);
   Bytes F2 = apply_faults(s, B, key);
   if (memcmp(key, B.e.key, 16) == 0) return skipv("key-unchanged");
+  warm_up(s, B);   // the right key accepted first (same process, and - as it happens - the same key buffer address)
   VD r = verify_and_decrypt(s, F2, key, B.T, HANG_VIOLATION);
   Verdict v;
   v.case_hash = case_hash_faults(s);
@@ -681,6 +682,7 @@ static void gen_C08(const std::string &tier, uint64_t seed, long idx, Scn &s) {
     s.i["mlen"] = k;
     static const long offs[] = {0, 1, 48};
     s.i["off"] = s.i["offk"] < 3 ? offs[s.i["offk"]] : (long)g.below(200);
+    if (g.chance(0.25)) s.i["prelude"] = (s.i["hm"] + 1 + (long)g.below(2)) % 3;
     return;
   }
   idx -= per * reps;
@@ -757,6 +759,17 @@ static Verdict run_C08(const Scn &s) {
       return x;
     }
     return v;
+  }
+  if (s.geti("prelude", -1) >= 0) {
+    // an earlier tag computation with ANOTHER hash mode in the same process must not influence this one
+    g_stats.add("probe.hmac_prelude_with_other_hash", 1);
+    SimFile pf;
+    pf.data.assign(37, 0x5A);
+    FILE *pfp = sim_fopen(&pf, "rb", -1);
+    uint8_t pout[64];
+    hmac ph;
+    ph.gethmac((u8_t)s.geti("prelude"), key, pfp, pout, 0);
+    fclose(pfp);
   }
   long off = s.geti("off", 0);
   Bytes msg((size_t)mlen);
